@@ -99,13 +99,13 @@ func writeEvidence(id, tier string, seed uint64, p *propInfo, a *aggregate, det 
 		"operations":            a.ops,
 		"logical_steps":         a.steps,
 		"invariant_evaluations": a.checks,
-		"simulated_time":        fmt.Sprintf("%d logical steps (library calls and scheduler steps); go-cose has no clock, so no simulated seconds exist", a.steps),
+		"simulated_time":        fmt.Sprintf("%d logical steps (library calls and scheduler steps); the wall clock is a seam (per run an instant between 1970 and 9999 and a jump of 0 s..80 years per read, both from the tape) that go-cose read %d times in this check", a.steps, a.faults["clock.read-by-library"]),
 		"faults_fired":          a.faults,
 		"probes":                a.probes,
 		"runs_per_hour":         int(float64(a.runs) / wall * 3600),
 		"seeds":                 []uint64{seed},
 		"real_components":       p.Real,
-		"stub_components":       p.Stubs,
+		"stub_components":       append(append([]string{}, p.Stubs...), "wall clock of package cose: simulated (tape-drawn instant and per-read jump; time.Now/Since/Until rerouted by the instrumenter; the pinned tree never reads it)"),
 		"determinism_selftest": map[string]any{
 			"tapes": det.tapes, "processes": det.procs, "gomaxprocs": []int{1, 8}, "identical_event_logs": det.ok, "log_sha256": det.hashes,
 		},
@@ -191,6 +191,28 @@ func selftest() int {
 		return 2
 	}
 	fmt.Printf("verif selftest: repository suite passes on the instrumented copy: %s", lastLine(out))
+	// the clock seam: code of package cose that reads the wall clock reads
+	// the simulator's once instrumented (the pinned tree has no such code, so
+	// a probe file is planted in a second copy before instrumenting it)
+	dir2 := scratch()
+	defer os.RemoveAll(dir2)
+	copy2 := filepath.Join(dir2, "repo")
+	probe := map[string]string{
+		"zz_verif_clock_probe.go":      "package cose\n\nimport \"time\"\n\nfunc verifClockProbe(t0 time.Time) (time.Time, time.Duration, time.Duration) {\n\tnow := time.Now()\n\treturn now, time.Since(t0), time.Until(t0)\n}\n",
+		"zz_verif_clock_probe_test.go": "package cose\n\nimport (\n\t\"testing\"\n\t\"time\"\n\n\t\"github.com/veraison/go-cose/verifsim\"\n)\n\nfunc TestVerifClockProbe(t *testing.T) {\n\tat := time.Unix(253402300799, 0).UTC()\n\tverifsim.NowHook = func() time.Time { return at }\n\tdefer func() { verifsim.NowHook = nil }()\n\tr0 := verifsim.ClockReads\n\tnow, since, until := verifClockProbe(at.Add(-time.Hour))\n\tif !now.Equal(at) || since != time.Hour || until != -time.Hour || verifsim.ClockReads-r0 != 3 {\n\t\tt.Fatalf(\"clock reads of package cose do not reach the simulated clock: %v %v %v reads=%d\", now, since, until, verifsim.ClockReads-r0)\n\t}\n}\n",
+	}
+	if err := makeInstrumentedCopyWith(dir2, copy2, probe); err != nil {
+		fmt.Fprintln(os.Stderr, "verif selftest: cannot instrument the clock-probe copy:", err)
+		return 2
+	}
+	t2 := exec.Command("go", "test", "-vet=off", "-count=1", "-run", "TestVerifClockProbe", ".")
+	t2.Dir = copy2
+	t2.Env = goEnv()
+	if out, err := t2.CombinedOutput(); err != nil {
+		fmt.Fprintf(os.Stderr, "verif selftest: the clock seam does not work:\n%s\n", out)
+		return 2
+	}
+	fmt.Println("verif selftest: clock seam: time.Now/Since/Until planted in package cose read the simulated clock")
 	return 0
 }
 
